@@ -51,7 +51,10 @@ def from_max_simplices(SC):
     max_simplices = SC.edges.maximal()
     H = Hypergraph()
     H.add_nodes_from(SC.nodes)  # to keep node order and isolated nodes
-    H.add_edges_from([list(SC.edges.members(e)) for e in max_simplices])
+    # dict format: a member list is never mistaken for a (members, id) pair
+    H.add_edges_from(
+        {i: SC.edges.members(e) for i, e in enumerate(max_simplices)}
+    )
     return H
 
 
